@@ -111,6 +111,9 @@ func vf15RunSplit(cf base.ClientFactory, cs vf15SplitCase) string {
 	if msg := l.clientWrite(vf15Fill(k, 4, 1+cs.Cut%97), nil); msg != "" {
 		return msg + " [" + ctx + "]"
 	}
+	if msg := l.upstreamComplete(ctx); msg != "" {
+		return msg
+	}
 	return l.flushAndCompare(ctx)
 }
 
